@@ -201,6 +201,16 @@ pub fn build(d: &mut Dna, cfg: &GenCfg) -> Built {
             .collect();
         set.push(if fallback.is_empty() { Tr::Debug } else { *d.choose(&fallback) });
     }
+    // `?Sized` tail class (C01): a struct whose last field is a type parameter that may be unsized; only for trait sets
+    // whose documented code never needs that field by value
+    let mut want_unsized = false;
+    if cfg.unsized_tail && kind == Kind::Struct && d.chance(6) {
+        set.retain(|t| matches!(t, Tr::Debug | Tr::PartialEq | Tr::Eq | Tr::PartialOrd | Tr::Ord | Tr::Hash));
+        if set.is_empty() {
+            set.push(*d.choose(&[Tr::Debug, Tr::PartialEq, Tr::Hash, Tr::PartialOrd]));
+        }
+        want_unsized = true;
+    }
     // rendered order: canonical, optionally rotated/permuted by the stream
     set.sort();
     set.dedup();
@@ -251,6 +261,11 @@ pub fn build(d: &mut Dna, cfg: &GenCfg) -> Built {
         }
     }
 
+    let unsized_param = "Zt".to_string();
+    if want_unsized {
+        gens.types.push(TyParam { name: unsized_param.clone(), bounds: vec!["?Sized".into()], default: None, inst: "u8".into() });
+        classes.push("unsized_tail");
+    }
     // ---------------------------------------------------------------- names
     let type_name = d.choose(&pool_or(&cfg.type_names, &TYPE_NAMES)).clone();
     let mut fnames = pool_or(&cfg.field_names, &FIELD_NAMES);
@@ -328,7 +343,7 @@ pub fn build(d: &mut Dna, cfg: &GenCfg) -> Built {
         let shape = match kind {
             Kind::Union => Shape::Named,
             _ => {
-                let unit_ok = !needs_field && cfg.min_fields == 0;
+                let unit_ok = !needs_field && cfg.min_fields == 0 && !want_unsized;
                 let w = if unit_ok { [25u32, 37, 38] } else { [0u32, 50, 50] };
                 [Shape::Unit, Shape::Named, Shape::Tuple][d.weighted(&w)]
             },
@@ -340,7 +355,7 @@ pub fn build(d: &mut Dna, cfg: &GenCfg) -> Built {
                 d.weighted(&w[..(cfg.max_fields + 1).min(6)])
             },
         };
-        if (needs_field || kind == Kind::Union) && nfields == 0 {
+        if (needs_field || kind == Kind::Union || want_unsized) && nfields == 0 {
             nfields = 1;
         }
         if shape != Shape::Unit {
@@ -377,6 +392,9 @@ pub fn build(d: &mut Dna, cfg: &GenCfg) -> Built {
             let mut default_slot = false;
             let union_ = kind == Kind::Union;
 
+            if want_unsized && fi + 1 == nfields {
+                forced_ty = Some(param_ty(&unsized_param, &base[0]));
+            }
             // ---- Deref / DerefMut / Into designation decides the type
             if has(Tr::Deref) && (fi == deref_pos || fi == deref_mut_pos) {
                 let mut t = deref_ty.clone().unwrap();
@@ -608,6 +626,9 @@ pub fn build(d: &mut Dna, cfg: &GenCfg) -> Built {
                 // generic parameter uses and wrappers
                 let mut gen_cands: Vec<FTy> = Vec::new();
                 for p in &gens.types {
+                    if want_unsized && p.name == unsized_param {
+                        continue;
+                    }
                     if let Some(b) = base.iter().find(|b| b.inst == p.inst) {
                         let pt = param_ty(&p.name, b);
                         if pt.caps & need == need {
@@ -930,7 +951,8 @@ pub fn build(d: &mut Dna, cfg: &GenCfg) -> Built {
             bs.retain(|b| !b.ends_with("Clone"));
             bs.push("::core::marker::Copy".into());
         }
-        if d.chance(10) {
+        let is_unsized = t.bounds.iter().any(|b| b == "?Sized");
+        if d.chance(10) && !is_unsized {
             bs.push("::core::marker::Sized".into());
         }
         if !bs.is_empty() {
@@ -938,7 +960,7 @@ pub fn build(d: &mut Dna, cfg: &GenCfg) -> Built {
                 gens.where_preds.push(format!("{}: {}", t.name, bs.join(" + ")));
                 classes.push("user_where_clause");
             } else {
-                t.bounds = bs;
+                t.bounds.extend(bs);
                 classes.push("inline_bounds");
             }
         }
@@ -949,7 +971,7 @@ pub fn build(d: &mut Dna, cfg: &GenCfg) -> Built {
         classes.push("lifetime_bound");
     }
     // defaults must be trailing: give them to a suffix of the type/const parameter list
-    if !gens.types.is_empty() && gens.consts.is_empty() && d.chance(15) {
+    if !gens.types.is_empty() && gens.consts.is_empty() && !want_unsized && d.chance(15) {
         let last = gens.types.len() - 1;
         gens.types[last].default = Some(gens.types[last].inst.clone());
         classes.push("type_param_default");
